@@ -53,3 +53,37 @@ func VerifC09() {
 	view(1, ref1, "height-1-view-after-a-later-commit")
 	view(2, ref2, "height-2-view-after-a-later-commit")
 }
+
+// VerifC09deep: a view of an older height must not be disturbed by later structural changes of
+// the live tree. Block 1 commits three keys to store a (a tree with an inner node above a right
+// subtree of two leaves); block 2 is an arbitrary write; then a key — any of the three — is
+// deleted or overwritten in the live store, uncommitted and then committed. A view of height 1
+// opened before, between and after these steps reads every key (and an absent one) as block 1
+// left them.
+func VerifC09deep() {
+	keys := [][]byte{{0x10}, {0x20}, {0x30}}
+	db := modelkv.NewUnorderedDB()
+	rs := mwMustOpen(db)
+	ref := mwNewRef()
+	b1 := []mwOp{{k: keys[0], val: v.Bytes(1)}, {k: keys[1], val: v.Bytes(1)}, {k: keys[2], val: v.Bytes(1)}}
+	mwApply(rs, b1)
+	ref.apply(b1)
+	rs.Commit()
+	ref1 := ref.clone()
+	probe := append(append([][]byte{}, keys...), []byte{0x15})[v.Choice(4)]
+	view := func(label string) {
+		st, err := rs.LoadLazyVersion(1)
+		v.Assert(err == nil, label+"-loads")
+		ms := (*st).(types.MultiStore)
+		v.Assert(mwAgreesAt(ms.GetKVStore(mwA), ms.GetKVStore(mwB), ref1, probe), label)
+	}
+	view("deep-height-1-view-at-once")
+	b2 := []mwOp{{toB: v.Choice(2) == 1, del: v.Choice(2) == 1, k: keys[v.Choice(3)], val: v.Bytes(1)}}
+	mwApply(rs, b2)
+	rs.Commit()
+	b3 := []mwOp{{del: v.Choice(2) == 1, k: keys[v.Choice(3)], val: v.Bytes(1)}}
+	mwApply(rs, b3)
+	view("deep-height-1-view-during-a-later-block")
+	rs.Commit()
+	view("deep-height-1-view-after-later-commits")
+}
